@@ -665,7 +665,7 @@ func history(res result, ids []uint32) []string {
 
 func run(rr *mon.Run) {
 	r = rr
-	r.Rule("enumerated: per exchange a pattern of up to two leading faults from {L request lost, A ack lost, D ack duplicated, H ack held, R request duplicated, Q request held} and a terminal from {K healthy, X every ack lost, Y every request lost} (gateway->client: terminal K only); all 129 x 129 two-exchange patterns client->gateway (thorough; seeded subset in quick) crossed with sampled gateway->client patterns, sampled three-exchange patterns; random: 600-Send runs with 1..8 senders, 12/10/10 % loss/duplication/hold-back both ways and 1200 concurrent gateway->client telegrams (every second run against a lagging application). Distinct = distinct scenario signatures in which at least one fault was actually applied")
+	r.Rule("enumerated: per exchange a pattern of up to two leading faults from {L request lost, A ack lost, D ack duplicated, H ack held, R request duplicated, Q request held} and a terminal from {K healthy, X every ack lost, Y every request lost} (gateway->client: terminal K only); all 129 x 129 two-exchange patterns client->gateway (thorough; seeded subset in quick) crossed with sampled gateway->client patterns, sampled three- to six-exchange patterns; random: 600-Send runs with 1..8 senders, 12/10/10 % loss/duplication/hold-back both ways and 1200 concurrent gateway->client telegrams (every second run against a lagging application). Distinct = distinct scenario signatures in which at least one fault was actually applied")
 	outPats := exchangePatterns(terminalsOut)
 	inPats := exchangePatterns([]byte{fK})
 	rng := rand.New(rand.NewSource(r.Seed()*977 + 3))
@@ -681,6 +681,16 @@ func run(rr *mon.Run) {
 			jobs = append(jobs, job{[]string{outPats[rng.Intn(len(outPats))], outPats[rng.Intn(len(outPats))], outPats[rng.Intn(len(outPats))]},
 				[]string{inPats[rng.Intn(len(inPats))], inPats[rng.Intn(len(inPats))], inPats[rng.Intn(len(inPats))]}})
 		}
+		// up to 6 telegrams per direction (sampled)
+		for i := 0; i < 12000; i++ {
+			k := 4 + i%3
+			var o, in []string
+			for j := 0; j < k; j++ {
+				o = append(o, outPats[rng.Intn(len(outPats))])
+				in = append(in, inPats[rng.Intn(len(inPats))])
+			}
+			jobs = append(jobs, job{o, in})
+		}
 	} else {
 		// every single-exchange pattern once, then a seeded subset of pairs / triples
 		for _, a := range outPats {
@@ -689,8 +699,8 @@ func run(rr *mon.Run) {
 		for _, a := range inPats {
 			jobs = append(jobs, job{[]string{"K"}, []string{a}})
 		}
-		for i := 0; i < 500; i++ {
-			k := 2 + i%2
+		for i := 0; i < 600; i++ {
+			k := 2 + i%5
 			var o, in []string
 			for j := 0; j < k; j++ {
 				o = append(o, outPats[rng.Intn(len(outPats))])
